@@ -1,7 +1,11 @@
 /-
-  Driver ops for C19.
+  Driver ops for C19.  C19 has no correspondence op: its model (CedarGo/Model/Heap.lean) is an abstract heap
+  with interleavings, which no execution of the Go code can be lined up against (DESIGN §4 C19); the tie to the
+  source is the write-set extractor (factgen/c19.go) plus the race/immutability search of the harness.
+  The import keeps the heap model inside the core library build.
 -/
 import CedarGo.Driver.Ops.Core
+import CedarGo.Model.Heap
 namespace CedarGo.Driver
 open Lean CedarGo
 
